@@ -88,7 +88,10 @@ func (rl *ruleLoader) commentTextBegin(lex lexeme.LexEvent) {
 func (rl *ruleLoader) commentTextEnd(lex lexeme.LexEvent) {
 	switch lex.Type() {
 	case lexeme.InlineAnnotationTextEnd, lexeme.MultiLineAnnotationTextEnd:
-		if rl.node != nil {
+		// A note on a line without EXAMPLE doesn't belong to any node (the same
+		// way a RULE can't be placed there), so it shouldn't be given to the
+		// last added node, which is unrelated to it and may have its own note.
+		if rl.node != nil && rl.nodesPerCurrentLineCount != 0 {
 			rl.node.SetComment(lex.Value().TrimSpaces().String())
 		}
 		rl.stateFunc = rl.endOfLoading
